@@ -83,7 +83,9 @@ class BatchProcessing(Scheduling):
             # The starting number of temporary resources is the maximum
             # number of (greedy) allocations we can make
             max_allocations_iteration = len(temporary_resources)
-            for task in task_pool:
+            # Sets iterate in hash order, which differs between interpreter
+            # runs: take the ready tasks in a fixed order
+            for task in sorted(task_pool, key=lambda t: t.id):
                 # If we have exhausted all possible allocations for this
                 # timest ep, there no need to iterat
                 if len(allocations) >= max_allocations_iteration:
